@@ -21,7 +21,7 @@ void h_schedule(void)
   uint64_t id = nondet_u64(); void *cb = (void *)&W;
   TimingWheel_scheduleLocked(&W, id, delay, cb);
   IORA_CANARY("h_schedule: returns");
-  /* Q1 */ __CPROVER_assert(e.id == id && e.callback == cb && e.deadline - delay >= L && e.deadline - delay <= ((int64_t)1 << 61), "Q1 the entry carries id, handler and deadline = clock + delay");
+  /* Q1 */ __CPROVER_assert(e.id == id && e.callback == cb && e.deadline == G_clock_last + delay && G_clock_last >= L, "Q1 the entry carries id, handler and deadline = the clock value read + delay (representation invariant: entry->deadline is the time the timer is due)");
   /* Q2 */ __CPROVER_assert(G_ins_calls == 1 && G_ins_e == &e && G_map_key == id && G_map_slot == &e && G_wheel_locks == 1, "Q2 under the wheel lock the entry is inserted once and registered under its id (cancel/reschedule find it)");
   /* Q3 */ __CPROVER_assert(G_ins_delay >= e.deadline - L - tick || delay <= tick, "Q3 not early: the delay used for the bucket computation is measured from the wheel's time base (>= deadline - lastAdvanceTime - tick), unless the timer is due within one tick anyway");
   /* Q6 */ __CPROVER_assert(G_ins_delay <= e.deadline - L, "Q6 never dropped: the delay used is not beyond the real distance to the deadline");
@@ -30,11 +30,24 @@ void h_schedule(void)
 void h_reschedule(void)
 {
   SCHED_STATE
-  bool r = TimingWheel_rescheduleLocked(&W, &e, delay);
+  uint64_t id = nondet_u64(); IdPair slot; slot.first = id; slot.second = &e;
+  G_find_result = nondet_bool() ? &slot : NULL; G_finds = 0; G_unlinks = 0; G_unlink_before_insert = 0; G_clock_reads = 0;
+  const _Bool pending = G_find_result != NULL; const TimerEntry e0 = e;
+  bool r = TimingWheel_reschedule(&W, id, delay);
   IORA_CANARY("h_reschedule: returns");
-  /* Q4 */ __CPROVER_assert(r && G_ins_calls == 1 && G_ins_e == &e && e.deadline - delay >= L && e.deadline - delay <= ((int64_t)1 << 61), "Q4 reschedule re-inserts the entry once with deadline = clock + newDelay and reports success");
-  /* Q5 */ __CPROVER_assert(G_ins_delay >= e.deadline - L - tick || delay <= tick, "Q5 not early: the delay used for the bucket computation is measured from the wheel's time base (>= deadline - lastAdvanceTime - tick), unless the timer is due within one tick anyway");
-  /* Q7 */ __CPROVER_assert(G_ins_delay <= e.deadline - L, "Q7 never dropped: the delay used is not beyond the real distance to the deadline");
+  /* Q4a */ __CPROVER_assert(r == pending && G_finds == 1 && G_find_key == id && G_wheel_locks == 1, "Q4a reschedule reports success iff the id is pending; it decides under the wheel lock");
+  if (!r) {
+    IORA_CANARY("h_reschedule: not pending");
+    /* Q4b */ __CPROVER_assert(G_ins_calls == 0 && G_unlinks == 0 && e.deadline == e0.deadline && e.id == e0.id && e.callback == e0.callback, "Q4b a failed reschedule changes nothing");
+  } else {
+    IORA_CANARY("h_reschedule: rescheduled");
+    /* Q4  */ __CPROVER_assert(G_unlinks == 1 && G_unlinked == &e && G_unlink_before_insert && G_ins_calls == 1 && G_ins_e == &e && e.id == e0.id && e.callback == e0.callback,
+                               "Q4 the entry is unlinked from its old bucket, then re-inserted exactly once, keeping id and handler");
+    /* Q10 */ __CPROVER_assert(G_clock_reads == 1 && e.deadline == G_clock_last + delay, "Q10 representation invariant: after a successful reschedule entry->deadline IS the time the timer is now due (the clock value read + newDelay) - cascadeDown's deadline test and drain()'s fire-or-cancel decision read it");
+    /* Q5  */ __CPROVER_assert(G_ins_delay >= e.deadline - L - tick || delay <= tick, "Q5 not early: the delay used for the bucket computation is measured from the wheel's time base (>= deadline - lastAdvanceTime - tick), unless the timer is due within one tick anyway");
+    /* Q7  */ __CPROVER_assert(G_ins_delay <= e.deadline - L, "Q7 never dropped: the delay used is not beyond the real distance to the deadline");
+    /* Q11 */ __CPROVER_assert(G_ins_delay >= G_clock_last + delay - L - tick || delay <= tick, "Q11 the bucket is chosen from the SAME clock value: delay used >= (clock read + newDelay) - lastAdvanceTime - tick");
+  }
 }
 
 /* the whole schedule(): "scheduling on a stopped service is refused rather than lost" and the id it hands out */
